@@ -53,12 +53,14 @@ def graphs(n, k, with_async=False):
                 if _cd(PLACES[place[a]], PLACES[place[b]]) >= 2:
                     kinds.append("w")
                 if with_async and a != b:
-                    kinds.append("a")
+                    kinds += ["a", "as"]        # async with a plain / a time-shifted data flow
+                    if "w" in kinds:
+                        kinds.append("aw")
                 for kd in kinds:
                     opts.append((a, b, kd))
         for m in range(1, k + 1):
             for cs in itertools.combinations(opts, m):
-                if with_async and not any(c[2] == "a" for c in cs):
+                if with_async and not any(c[2].startswith("a") for c in cs):
                     continue
                 # every simulator must take part (smaller n covers the rest)
                 used = {c[0] for c in cs} | {c[1] for c in cs}
@@ -86,6 +88,12 @@ def to_scen(n, place, cs):
             c["weak"] = True
         elif kd == "a":
             c["async"] = True
+        elif kd == "as":
+            c["async"] = True
+            c["shift"] = 1
+        elif kd == "aw":
+            c["async"] = True
+            c["weak"] = True
         conns.append(c)
     return dict(until=1, max_loop=3, groups=GROUPS, sims=sims, conns=conns)
 
@@ -164,8 +172,9 @@ def _walk_problem(topo, walk):
 
 def _fmt(scen):
     g = {s["sid"]: s.get("group") for s in scen["sims"]}
-    cs = [(c["src"], c["dst"], "s" if c.get("shift") else "w" if c.get("weak") else
-           "a" if c.get("async") else "p") for c in scen["conns"]]
+    cs = [(c["src"], c["dst"], ("a" if c.get("async") else "") +
+           ("s" if c.get("shift") else "w" if c.get("weak") else "" if c.get("async") else "p"))
+          for c in scen["conns"]]
     return f"groups={g} conns={cs}"
 
 
